@@ -62,6 +62,48 @@ impl Strategy for RandomWalk {
     }
 }
 
+/// Random walk with stragglers: at `freeze_at[k]` (a step number) the worker that is running then is
+/// frozen (not scheduled while anybody else can run calmly) for `duration[k]` steps. Models a
+/// transaction execution / validation that is slow relative to everything else.
+pub struct Straggler {
+    pub inner: RandomWalk,
+    pub freeze_at: Vec<u64>,
+    pub duration: Vec<u64>,
+    pub step: u64,
+    pub frozen: Vec<(usize, u64)>,
+}
+impl Straggler {
+    pub fn new(mut rng: Rng, n: usize, horizon: u64) -> Self {
+        let freeze_at = (0..n).map(|_| rng.below(horizon.max(1))).collect();
+        let duration = (0..n).map(|_| 20 + rng.below(horizon.max(1))).collect();
+        let stay = rng.range(20, 85);
+        Straggler { inner: RandomWalk { rng, stay }, freeze_at, duration, step: 0, frozen: Vec::new() }
+    }
+}
+impl Strategy for Straggler {
+    fn pick(&mut self, runnable: &[usize], cur: Option<usize>, threads: &[ThreadInfo], last: Option<&TraceEv>) -> usize {
+        self.step += 1;
+        let step = self.step;
+        for k in 0..self.freeze_at.len() {
+            if self.freeze_at[k] == step {
+                if let Some(c) = cur {
+                    if threads[c].role == "worker" {
+                        self.frozen.push((c, step + self.duration[k]));
+                    }
+                }
+            }
+        }
+        self.frozen.retain(|&(_, until)| until > step);
+        let pool: Vec<usize> = runnable.iter().copied().filter(|t| !self.frozen.iter().any(|(f, _)| f == t)).collect();
+        // everybody else spinning or blocked: the straggler is the only one that can make progress
+        if pool.is_empty() || pool.iter().all(|&t| threads[t].spin >= 3) {
+            return self.inner.pick(runnable, cur, threads, last);
+        }
+        let cur = cur.filter(|c| pool.contains(c));
+        self.inner.pick(&pool, cur, threads, last)
+    }
+}
+
 /// PCT-style: random distinct priorities, `d` change points at random step numbers.
 pub struct Pct {
     pub rng: Rng,
@@ -175,7 +217,11 @@ struct Inner {
     timeouts_used: u64,
     log: bool,
     idle_switches: u64,
+    failed_at: Option<std::time::Instant>,
 }
+
+/// Real time a failed run may keep going before it is torn down.
+pub const KILL_AFTER: Duration = Duration::from_secs(12);
 
 pub struct Driver {
     inner: Mutex<Inner>,
@@ -201,6 +247,7 @@ impl Driver {
                 timeouts_used: 0,
                 log: true,
                 idle_switches: 0,
+                failed_at: None,
             }),
             cv: Condvar::new(),
         })
@@ -273,8 +320,18 @@ impl Driver {
     fn fail(g: &mut Inner, why: String) {
         if g.failure.is_none() {
             g.failure = Some(why);
+            g.failed_at = Some(std::time::Instant::now());
         }
         g.free = true;
+        // the threads now run free, possibly for ever: stop recording
+        g.log = false;
+    }
+
+    /// After a failure the real code gets `KILL_AFTER` of real time to finish by itself (stall
+    /// timeouts included). A run that is still going then is a genuine hang: every thread that
+    /// reaches a hook panics, the scheduler's panic guard cancels the others, and the run ends.
+    fn kill_if_abandoned(g: &Inner) -> bool {
+        g.failed_at.is_some_and(|t| t.elapsed() > KILL_AFTER) && !std::thread::panicking()
     }
 
     /// Wait until `me` is current (or the run went free). A real-time watchdog turns a driver hang
@@ -390,6 +447,10 @@ impl Driver {
 impl Hook for Driver {
     fn point(&self, ev: Ev) {
         let mut g = self.inner.lock().unwrap_or_else(|e| e.into_inner());
+        if Self::kill_if_abandoned(&g) {
+            drop(g);
+            panic!("verif driver: run abandoned {KILL_AFTER:?} after a liveness failure");
+        }
         let me = Self::me(&g);
         let tid = me.map_or(-1, |m| m as i64);
         if g.log {
@@ -475,7 +536,9 @@ impl Hook for Driver {
         let me = Self::me(&g).map_or(-1, |m| m as i64);
         if let Some(&t) = g.by_os.get(&thread.id()) {
             g.threads[t].token = true;
-            g.trace.push(TraceEv { tid: me, kind: "UNPARK", a: [t as i64, -1, -1, -1, -1, -1] });
+            if g.log {
+                g.trace.push(TraceEv { tid: me, kind: "UNPARK", a: [t as i64, -1, -1, -1, -1, -1] });
+            }
         }
     }
 
